@@ -100,6 +100,9 @@ export function writeOptionToArrayBuffer(arrayBuffer, offset, jsValue, size, ali
     if (jsValue != null) {
         writeToArrayBufferCallback(arrayBuffer, offset, jsValue);
         writeToArrayBuffer(arrayBuffer, offset + size, 1, Uint8Array);
+    } else {
+        // The buffer comes from diplomat_alloc and is not zeroed: None needs its flag written too
+        writeToArrayBuffer(arrayBuffer, offset + size, 0, Uint8Array);
     }
 }
 
